@@ -439,6 +439,8 @@ func genC19Params(t *simrt.Tape, invalidOK bool) map[string]string {
 		case oStr:
 			if sp.url == "unit" {
 				p[sp.url] = unitVals[t.Choose(K, len(unitVals))]
+			} else if t.Bool(K, 10) {
+				p[sp.url] = dictStr(t, "foo")
 			} else {
 				p[sp.url] = strVals[t.Choose(K, len(strVals))]
 			}
